@@ -5,7 +5,7 @@ from ..engine import rule
 from ..db import (walk, peel, peel_casts, render, callee, path_ends, short_path, is_call, call_args, lit_int,
                   diverges, exit_kind, path_conditions, atoms)
 from ..guards import guarded_exits, eval3, bound_cmp_evaluator, mentions, is_call_to, cmp_atom, holds
-from ..origins import origins, field_writes, unwrap_try, derived_fns
+from ..origins import origins, field_writes, unwrap_try, derived_fns, with_let_inits
 from .. import cg
 
 META = {
@@ -34,9 +34,10 @@ _BITS = {"u8": 8, "i8": 8, "u16": 16, "i16": 16, "u32": 32, "i32": 32, "u64": 64
          "usize": 64, "isize": 64, "u128": 128, "i128": 128}
 
 
-def narrowing_casts(e):
+def narrowing_casts(e, db=None, f=None):
     out = []
-    for n, _ in walk(e):
+    nodes_ = with_let_inits(db, f, e) if db is not None else (n for n, _ in walk(e))
+    for n in nodes_:
         if n.get("k") == "Cast":
             a, b = _BITS.get(n["e"].get("ty")), _BITS.get(n.get("ty"))
             if a and b and b < a:
@@ -80,7 +81,7 @@ def bounds(db, ctx):
                     v = eval3(cond, bound_cmp_evaluator(isb, p))
                     vals.append(bool(v is not None and v == pol))
                 xs = render(x) if x else "?"
-                narrow = narrowing_casts(x) if x else []
+                narrow = narrowing_casts(x, db, f) if x else []
                 signed_ok = True
                 xty = (x or {}).get("ty", "")
                 if xty.startswith("i"):
@@ -95,7 +96,8 @@ def bounds(db, ctx):
                            ("; narrowing casts before the comparison: %s" % narrow) if narrow else "",
                            "" if signed_ok else "; signed value without a `< 0` rejection"),
                        fn=f, site=ifn.get("sp"),
-                       detail={"cond": render(cond), "rejects_at_n_minus1_n_n_plus1": vals, "exit": ek})
+                       detail={"cond": render(cond), "rejects_at_n_minus1_n_n_plus1": vals, "exit": ek},
+                       sig="rejects=%s;narrow=%s;signed_ok=%s;exit=%s" % (vals, narrow, signed_ok, ek))
     ctx.floor(4)
     # check_cost: reject exactly outside i16
     for f in db.impls_of("CheckParams::check_cost"):
